@@ -185,6 +185,15 @@ def parser_arms(F, it, enum_path):
                 rv = s["rv"]
                 if rv["k"] == "agg" and rv.get("adt") == enum_path and cfg.dominates(tb, bi):
                     out[rule] = rv["variant"]
+            # ... or chosen in the arm as a function pointer: `let build: fn(_) -> Self = match rule { R => Self::From, .. }`
+            for bi, si, s in mir.stmts(f):
+                rv = s["rv"]
+                if rv["k"] in ("use", "cast") and cfg.dominates(tb, bi):
+                    c_ = mir.op_const(rv["op"])
+                    if c_ and "fn" in c_ and (c_.get("fn_resolved") or c_["fn"]).startswith(enum_path + "::"):
+                        v = (c_.get("fn_resolved") or c_["fn"])[len(enum_path) + 2:]
+                        if "::" not in v:
+                            out[rule] = v
             # the variant's constructor handed over as a function value: `helper(pair).map(Self::From)`
             for bi, t2 in mir.calls(f):
                 if not cfg.dominates(tb, bi):
